@@ -107,29 +107,7 @@ def run(ctx, R, tier):
                         why = "%s at %s ends the loop while the loop condition may still hold" % (type(e).__name__.lower(), f.loc(e))
             R.check(ok, "C05-R1b", key, "handler keeps the loop running", f.loc(h), why)
 
-    # ---------------------------------------------------------------- R2
-    f = ctx.fn("Pyro5.svr_threads.Worker.run")
-    cfg = ctx.cfg(f)
-    job_calls = [c for c in [n for n in walk_no_nested(f.node) if isinstance(n, ast.Call)] if unparse(c.func) == "self.job"]
-    nd_calls = ctx.calls_to(f, "Pyro5.svr_threads.Pool.notify_done")
-    if len(job_calls) != 1 or not nd_calls:
-        raise AnalysisError("Worker.run: expected one `self.job()` call and a notify_done call")
-    job_nodes = ctx.node_of(f, job_calls[0])
-    nd_stmts = {id(enclosing_stmt(c)) for c in nd_calls}
-    wait_nodes = [n for n in cfg.nodes if n.kind == "stmt" and any(unparse(c.func).endswith("job_available.wait") for c in calls_in(n))]
-
-    can_raise = ctx.exc_filter(f)
-    ok = cfg.all_paths_pass(job_nodes, lambda n: id(n.ast) in nd_stmts, edge_ok=can_raise,
-                            targets=[cfg.exit, cfg.raise_exit] + wait_nodes)
-    R.check(ok, "C05-R2", "Worker.run|job->notify_done", "every path from self.job() reaches pool.notify_done(self) before the next wait / exit",
-            f.loc(job_calls[0]), "a path from the job call reaches the next wait or the function exit without notify_done")
-    # job slot cleared before notify_done
-    clear = [n for n in cfg.nodes if n.kind == "stmt" and isinstance(n.ast, ast.Assign) and any(unparse(t) == "self.job" for t in n.ast.targets)
-             and isinstance(n.ast.value, ast.Constant) and n.ast.value.value is None]
-    ndn = [n for n in cfg.nodes if id(n.ast) in nd_stmts]
-    ok = bool(clear) and all(cfg.all_paths_pass(job_nodes, lambda n: n in clear, edge_ok=can_raise, targets=[x]) for x in ndn)
-    R.check(ok, "C05-R2", "Worker.run|slot-cleared", "`self.job = None` lies on every path from the job call to notify_done", f.loc(),
-            "notify_done can be reached from the job call without clearing the job slot")
+    worker_loop_rules(ctx, R, "C05-R2")
 
     # ---------------------------------------------------------------- R3
     f = ctx.fn("Pyro5.server.Daemon.handleRequest")
@@ -256,6 +234,34 @@ def run(ctx, R, tier):
         trys = [t for t, part in enclosing_trys(c, g.node) if part == "body" and any(handler_is_catch_all(h) for h in t.handlers)]
         R.check(bool(trys), "C05-R5", "%s|_handshake" % g.qualname, "handshake call is under a catch-all try", g.loc(c),
                 "an exception of Daemon._handshake (send failure, annotation/serialisation error) leaves %s" % g.qualname)
+
+
+def worker_loop_rules(ctx, R, rid):
+    """shared by C05-R2 and C18-R4: every path from the job call passes notify_done; the slot is cleared first"""
+    es = ctx.escape
+    f = ctx.fn("Pyro5.svr_threads.Worker.run")
+    cfg = ctx.cfg(f)
+    job_calls = [c for c in [n for n in walk_no_nested(f.node) if isinstance(n, ast.Call)] if unparse(c.func) == "self.job"]
+    nd_calls = ctx.calls_to(f, "Pyro5.svr_threads.Pool.notify_done")
+    if len(job_calls) != 1 or not nd_calls:
+        raise AnalysisError("Worker.run: expected one `self.job()` call and a notify_done call")
+    job_nodes = ctx.node_of(f, job_calls[0])
+    nd_stmts = {id(enclosing_stmt(c)) for c in nd_calls}
+    wait_nodes = [n for n in cfg.nodes if n.kind == "stmt" and any(unparse(c.func).endswith("job_available.wait") for c in calls_in(n))]
+
+    can_raise = ctx.exc_filter(f)
+    ok = cfg.all_paths_pass(job_nodes, lambda n: id(n.ast) in nd_stmts, edge_ok=can_raise,
+                            targets=[cfg.exit, cfg.raise_exit] + wait_nodes)
+    R.check(ok, rid, "Worker.run|job->notify_done", "every path from self.job() reaches pool.notify_done(self) before the next wait / exit",
+            f.loc(job_calls[0]), "a path from the job call reaches the next wait or the function exit without notify_done")
+    # job slot cleared before notify_done
+    clear = [n for n in cfg.nodes if n.kind == "stmt" and isinstance(n.ast, ast.Assign) and any(unparse(t) == "self.job" for t in n.ast.targets)
+             and isinstance(n.ast.value, ast.Constant) and n.ast.value.value is None]
+    ndn = [n for n in cfg.nodes if id(n.ast) in nd_stmts]
+    ok = bool(clear) and all(cfg.all_paths_pass(job_nodes, lambda n: n in clear, edge_ok=can_raise, targets=[x]) for x in ndn)
+    R.check(ok, rid, "Worker.run|slot-cleared", "`self.job = None` lies on every path from the job call to notify_done", f.loc(),
+            "notify_done can be reached from the job call without clearing the job slot")
+
 
 
 def _inside(node, container):
